@@ -5,7 +5,11 @@ impl View for Decimal { type V = real; uninterp spec fn view(&self) -> real; }
 pub uninterp spec fn dec(r: real) -> Decimal;
 pub broadcast axiom fn axiom_dec_view(r: real) ensures #[trigger] dec(r)@ == r;
 pub broadcast axiom fn axiom_view_dec(d: Decimal) ensures #[trigger] dec(d@) == d;
-pub broadcast group group_decimal { axiom_dec_view, axiom_view_dec }
+pub broadcast group group_decimal { axiom_dec_view, axiom_view_dec, lemma_rmul_commutes }
+// the product computed by `a * b` on Decimals: the same real number whichever way round the operands are written (nonlinear terms are
+// opaque to the default solver mode, so `a * b` and `b * a` would otherwise be unrelated terms and swapping operands would break proofs)
+pub open spec fn rmul(a: real, b: real) -> real { a * b }
+pub broadcast proof fn lemma_rmul_commutes(a: real, b: real) by(nonlinear_arith) ensures #[trigger] rmul(a, b) == b * a {}
 impl Clone for Decimal { #[verifier::external_body] fn clone(&self) -> (r: Self) ensures r == *self { unimplemented!() } }
 impl Copy for Decimal {}
 
@@ -25,7 +29,7 @@ impl core::ops::Mul for Decimal { type Output = Decimal; #[verifier::external_bo
 impl vstd::std_specs::ops::MulSpecImpl<Decimal> for Decimal {
     open spec fn obeys_mul_spec() -> bool { true }
     open spec fn mul_req(self, rhs: Decimal) -> bool { true }
-    open spec fn mul_spec(self, rhs: Decimal) -> Decimal { dec(self@ * rhs@) }
+    open spec fn mul_spec(self, rhs: Decimal) -> Decimal { dec(rmul(self@, rhs@)) }
 }
 // rust_decimal panics on division by zero: the divisor being non-zero is a proof obligation at every `/`
 impl core::ops::Div for Decimal { type Output = Decimal; #[verifier::external_body] fn div(self, rhs: Decimal) -> Decimal { unimplemented!() } }
